@@ -188,7 +188,7 @@ def compare(case, io, mo):
     if case["fn"] == "large":
         return "diff:implementation failed: " + io[1] if C.is_err(io) else "ok"
     r = C.std_compare(io, mo, tol=1e-11)
-    if r != "ok" and not C.is_err(io):
+    if r != "ok":      # (also when one side failed: a zero-weight point that lands alone in a block on one side of a tie only)
         a = case["args"]
         if B.near_tie(a[0][0], a[0][1], a[4], a[5], a[6], a[7]):
             return "amb"
